@@ -380,7 +380,7 @@ def encode_for_model(seq, docs=None):
     return " ".join(out)
 
 
-def run_sequence(root, docs, seq, offers=None, disk_extra=None):
+def run_sequence(root, docs, seq, offers=None, disk_extra=None, expects=None):
     """drive the real binary; returns observations.  offers: the position encodings the editor offers at initialize
     (LSP 3.17 general.positionEncodings); the sequences count columns in UTF-16, so a session in which the server
     announces another encoding is skipped (obs['skipped'])"""
@@ -465,7 +465,8 @@ def run_sequence(root, docs, seq, offers=None, disk_extra=None):
             elif "error" in r:
                 obs["texts"][d.key] = None
             else:
-                obs["texts"][d.key] = lsp.text_of_syntax_tree(r["result"])
+                # (expects: the text the editor holds, only used to fill in token texts of 25 bytes or more, which the tree view abbreviates)
+                obs["texts"][d.key] = lsp.text_of_syntax_tree(r["result"], (expects or {}).get(d.key))
         obs["dups"] = list(c.dups)
         obs["alive"] = c.alive()
     finally:
@@ -510,7 +511,7 @@ def run_c15(res, tier, seed):
         docs, seq, client = gen_sequence(rng, root)
         jobs.append((root, docs, seq, client))
     try:
-        observations = common.parallel_map(lambda j: run_sequence(j[0], j[1], j[2]), jobs, workers=min(common.NCPU, 12))
+        observations = common.parallel_map(lambda j: run_sequence(j[0], j[1], j[2], expects={k: p_text.strip_cr(v) for k, v in j[3].items() if isinstance(v, str) and v not in ("FORGOTTEN", "VANISHED")}), jobs, workers=min(common.NCPU, 12))
     finally:
         shutil.rmtree(base, ignore_errors=True)
     mreqs = ["server\t" + encode_for_model(j[2], j[1]) for j in jobs]
@@ -881,7 +882,7 @@ def run_c13_blackbox(res, tier, seed):
         offers = rng.choice([None, None, ["utf-16"], ["utf-16", "utf-8"], ["utf-16", "utf-32", "utf-8"], ["utf-32", "utf-16"]])
         jobs.append((root, docs, seq, cur, offers, d.key, disk_extra))
     try:
-        observations = common.parallel_map(lambda j: run_sequence(j[0], j[1], j[2], j[4], j[6]), jobs, workers=min(common.NCPU, 12))
+        observations = common.parallel_map(lambda j: run_sequence(j[0], j[1], j[2], j[4], j[6], expects={j[5]: p_text.strip_cr(j[3])}), jobs, workers=min(common.NCPU, 12))
     finally:
         shutil.rmtree(base, ignore_errors=True)
     multi = 0
